@@ -441,11 +441,44 @@ impl Check for C15 {
     fn assumptions(&self) -> Vec<String> {
         vec![
             "after an error the buffer is required to be old ++ prefix(delivered) (never foreign bytes); the statement fixes the content only for success".into(),
-            "exposure of uninitialised memory to the reader cannot be observed in a normal run".into(),
+            "exposure of uninitialised memory to the reader cannot be observed in a normal run; a sample of scripts runs under Miri for that (side_check in evidence)".into(),
         ]
     }
     fn components(&self) -> Value {
         json!({"real": ["tiny_std::io::{Read,Write} default methods", "io::read_buf::ReadBuf", "alloc Vec/String"], "stub": ["the reader and the writer (scripted by the decision stream)"]})
+    }
+    fn side_check(&self, tier: Tier, seed: u64) -> Option<simk::runner::SideResult> {
+        // a sample of scripts under Miri: the reader inspects the buffer it is handed, so exposure
+        // of uninitialised spare capacity (unobservable in an ordinary run) becomes an error
+        let n = if tier == Tier::Thorough { 1500 } else { 48 };
+        let t0 = std::time::Instant::now();
+        let out = std::process::Command::new("cargo")
+            .args(["+nightly", "miri", "run", "-q", "-p", "miri-c15", "--offline", "--", &seed.to_string(), &n.to_string()])
+            .current_dir(simk::runner::verif_root())
+            .env("MIRIFLAGS", "-Zmiri-disable-isolation")
+            .output();
+        let mut viol = Vec::new();
+        let (status, text) = match out {
+            Ok(o) => (o.status.success(), format!("{}{}", String::from_utf8_lossy(&o.stdout), String::from_utf8_lossy(&o.stderr))),
+            Err(e) => (false, format!("cannot run cargo miri: {e}")),
+        };
+        let ok = status && text.contains("MIRI-C15 ok");
+        if !ok {
+            if text.contains("Undefined Behavior") {
+                let line = text.lines().find(|l| l.contains("Undefined Behavior")).unwrap_or("").trim().to_string();
+                let kind = if line.contains("uninitialized") { "uninitialized-memory-exposed-to-reader" } else { "other" };
+                viol.push(Violation { sig: format!("miri|undefined-behavior|{kind}"), detail: format!("Miri, seed {seed}, {n} scripts: {line}") });
+            } else if text.contains("panicked") {
+                let line = text.lines().find(|l| l.contains("panicked")).unwrap_or("").trim().to_string();
+                viol.push(Violation { sig: "miri|assertion-failed".into(), detail: format!("Miri run, seed {seed}: {line}") });
+            } else {
+                simk::runner::harness_error(&format!("the Miri sample could not be run: {}", text.lines().rev().take(6).collect::<Vec<_>>().join(" | ")));
+            }
+        }
+        Some(simk::runner::SideResult {
+            evidence: json!({"what": "crates/miri-c15 under cargo +nightly miri: scripted readers that read the buffer they are handed (read_to_end / read_to_string, short reads, EINTR, capacities around the growth thresholds)", "scripts": n, "seed": seed, "passed": ok, "wall_s": t0.elapsed().as_secs_f64()}),
+            violations: viol,
+        })
     }
     fn run(&self, _case: u64, mut dec: Dec, opts: &RunOpts) -> RunOut {
         let r = std::panic::catch_unwind(std::panic::AssertUnwindSafe(|| run_case(&mut dec, opts.record)));
